@@ -230,7 +230,9 @@ func (t *Task) yieldAt(site int) {
 func MutexLock(m *sync.Mutex, site int) {
 	t := runningTask()
 	if t == nil {
-		m.Lock()
+		if !m.TryLock() {
+			inlineDeadlock("sync.Mutex.Lock", site)
+		}
 		return
 	}
 	t.yieldAt(site)
@@ -249,7 +251,9 @@ func MutexUnlock(m *sync.Mutex, site int) {
 func RWMutexLock(m *sync.RWMutex, site int) {
 	t := runningTask()
 	if t == nil {
-		m.Lock()
+		if !m.TryLock() {
+			inlineDeadlock("sync.RWMutex.Lock", site)
+		}
 		return
 	}
 	t.yieldAt(site)
@@ -268,7 +272,9 @@ func RWMutexUnlock(m *sync.RWMutex, site int) {
 func RWMutexRLock(m *sync.RWMutex, site int) {
 	t := runningTask()
 	if t == nil {
-		m.RLock()
+		if !m.TryRLock() {
+			inlineDeadlock("sync.RWMutex.RLock", site)
+		}
 		return
 	}
 	t.yieldAt(site)
@@ -295,6 +301,13 @@ func (t *Task) unlocked(m unsafe.Pointer, site int) {
 	t.rmu = m
 	t.rsite = site
 	t.yield(reqUnlock)
+}
+
+// inlineDeadlock: in a single-task (inline) run only one goroutine ever executes library code (the instrumenter refuses
+// `go` statements in package validate), so an operation that would block can never be released by anybody: the call
+// would never return. It is turned into a panic carrying this text, which the harness records as the operation's outcome.
+func inlineDeadlock(what string, site int) {
+	panic(fmt.Sprintf("verif: deadlock: %s at sync site %d would block forever (the only caller goroutine waits for something nobody can release): the call never returns", what, site))
 }
 
 // RunResult of a multi-task run.
@@ -630,8 +643,12 @@ func Recv[T any](ch <-chan T, site int) T {
 func RecvOK[T any](ch <-chan T, site int) (T, bool) {
 	t := runningTask()
 	if t == nil {
-		v, ok := <-ch
-		return v, ok
+		select {
+		case v, ok := <-ch:
+			return v, ok
+		default:
+			inlineDeadlock("channel receive", site)
+		}
 	}
 	t.yieldAt(site)
 	if ch == nil {
@@ -654,7 +671,11 @@ func RecvOK[T any](ch <-chan T, site int) (T, bool) {
 func Send[T any](ch chan<- T, v T, site int) {
 	t := runningTask()
 	if t == nil {
-		ch <- v
+		select {
+		case ch <- v:
+		default:
+			inlineDeadlock("channel send", site)
+		}
 		return
 	}
 	t.yieldAt(site)
